@@ -1707,43 +1707,38 @@ Proof.
 Qed.
 Print Assumptions accessors_raise_only.
 
-(* get_window: total exactly when there is a non-empty OVER child *)
+(* get_window: None when there is no OVER child (since the library fix); the last token of the OVER clause otherwise *)
 Theorem get_window_spec : forall kids,
   get_window kids =
   match next_by_i COver kids with
-  | None => Err AttributeError
-  | Some (o, ov) => match last_indexed (nkids ov) with None => Err IndexError | Some (j, t) => Ok ([o; j], t) end
+  | None => Ok None
+  | Some (o, ov) => match last_indexed (nkids ov) with None => Err IndexError | Some (j, t) => Ok (Some ([o; j], t)) end
   end.
 Proof. reflexivity. Qed.
 
 Theorem get_window_no_over : forall kids,
-  forallb (fun t => negb (inst t COver)) kids = true -> get_window kids = Err AttributeError.
+  forallb (fun t => negb (inst t COver)) kids = true -> get_window kids = Ok None.
 Proof. intros kids H. unfold get_window. rewrite next_by_i_eq, find_aux_none by exact H. reflexivity. Qed.
 
-(* C07 is false of the accessors: select f(x) -- Function.get_window() raises AttributeError on a
-   tree parse() returns (over_clause is the tuple (None, None), which is truthy) *)
-Theorem C07_accessors_refuted :
+(* the former finding (select f(x): AttributeError, fixed in the library): the accessor answers None now *)
+Theorem C07_accessors_get_window_fixed :
   exists stmts s fn,
     cur_parse [115; 101; 108; 101; 99; 116; 32; 102; 40; 120; 41]%N = Ok stmts /\ stmts = [s]
     /\ nth_error (nkids s) 2 = Some fn /\ inst fn CFunction = true /\ wf_vals s = true
-    /\ get_window (nkids fn) = Err AttributeError
-    /\ In (A_get_window, VErr AttributeError) (accessors fn)
-    /\ In ([0; 2], A_get_window, VErr AttributeError) (acc_dump stmts).
+    /\ get_window (nkids fn) = Ok None.
 Proof.
   do 3 eexists. split; [vm_compute; reflexivity|]. split; [reflexivity|].
   split; [vm_compute; reflexivity|]. split; [vm_compute; reflexivity|]. split; [vm_compute; reflexivity|].
-  split; [vm_compute; reflexivity|]. split.
-  - vm_compute. repeat (try (left; reflexivity); right).
-  - vm_compute. repeat (try (left; reflexivity); right).
+  vm_compute; reflexivity.
 Qed.
-Print Assumptions C07_accessors_refuted.
+Print Assumptions C07_accessors_get_window_fixed.
 
 (* with a window the accessor returns the last token of the OVER clause *)
 Example get_window_ok_ex :
   exists s fn p t,
     cur_parse [115; 101; 108; 101; 99; 116; 32; 102; 40; 120; 41; 32; 111; 118; 101; 114; 32; 119]%N = Ok [s]
     (* select f(x) over w *)
-    /\ nth_error (nkids s) 2 = Some fn /\ get_window (nkids fn) = Ok (p, t) /\ text_of t = [119]%N.
+    /\ nth_error (nkids s) 2 = Some fn /\ get_window (nkids fn) = Ok (Some (p, t)) /\ text_of t = [119]%N.
 Proof.
   do 4 eexists. split; [vm_compute; reflexivity|]. split; [vm_compute; reflexivity|].
   split; [vm_compute; reflexivity|]. vm_compute; reflexivity.
